@@ -117,7 +117,7 @@ def _sources(doc, src, h):
     handler = ("lxml", "native")[h]
     source = textpath.SOURCES[src]
     cls, text = textpath.doc_text(doc)
-    if _KNOWN_ET_PREFIX and source.startswith("et_") and doc in _PREFIX_VALUE_DOCS:
+    if _KNOWN_ET_PREFIX and source.startswith("et_") and (doc in _PREFIX_VALUE_DOCS or ':type="' in text):
         return {"ok": True, "skipped": "exactly the signature of the listed known finding"}
     try:
         base = textpath.parse(text.encode(), cls, "native")
